@@ -125,3 +125,39 @@ fn c14_flush_notifies_each_key_with_its_fate() {
     assert!(buf.is_empty());
     core::mem::forget(buf);
 }
+
+/// Cache trim.  When the causal-length cache outgrows its limit it is cut down — and what must
+/// survive the cut are the keys seen most recently (here: the key of the very batch that caused
+/// the overflow): otherwise an older state of a key changed in quick succession is notified after
+/// a newer one.  Hosted with limits 2 / 1 instead of 2000 / 1000.
+#[kani::proof]
+#[kani::unwind(5)]
+fn c14_cache_trim_keeps_the_most_recent_keys() {
+    const X: Pk = Pk(30);
+    const Y: Pk = Pk(40);
+    let (cx, cy, cp): (i64, i64, i64) = (kani::any(), kani::any(), kani::any());
+    kani::assume(cx >= 1 && cy >= 1 && cp >= 1);
+    let mut cl_cache: IndexMap<(TableName, Pk), i64> = IndexMap::new();
+    cl_cache.insert((T, X), cx);
+    cl_cache.insert((T, Y), cy);
+    let mut buf = MatchCandidates::new();
+    let mut inner: IndexMap<Pk, i64> = IndexMap::new();
+    inner.insert(P, cp);
+    let mut candidates = MatchCandidates::new();
+    candidates.insert(T, inner);
+    let (_count, _process, cache) = small_cache::on_candidates(candidates, &mut buf, cl_cache, 0, false, Uuid(0));
+    assert!(cache.len() <= small_cache::MAX_CACHE_ENTRIES, "C14: the cache was not trimmed");
+    assert!(cache.get(&(T, P)) == Some(&cp), "C14: the cache trim dropped the key that was just notified (a stale candidate for it would now be delivered after the newer one)");
+    // and a stale candidate for that key is still refused afterwards
+    let stale: i64 = kani::any();
+    kani::assume(stale >= 1 && stale < cp);
+    let mut inner2: IndexMap<Pk, i64> = IndexMap::new();
+    inner2.insert(P, stale);
+    let mut again = MatchCandidates::new();
+    again.insert(T, inner2);
+    let mut buf2 = MatchCandidates::new();
+    let (count2, _, cache2) = small_cache::on_candidates(again, &mut buf2, cache, 0, false, Uuid(0));
+    assert!(count2 == 0 && buf2.get(&T).map(|m| m.get(&P).is_none()).unwrap_or(true), "C14: an older state of a key is buffered for notification after a newer one");
+    kani::cover!(true, "trim exercised");
+    core::mem::forget((buf, buf2, cache2));
+}
